@@ -100,6 +100,7 @@ func genC02(g *gen) {
 	}
 	g.line("]%%string.")
 	genC02KeyWrites(g)
+	genAEADFacts(g, "gen_c02_aead")
 }
 
 // roleFlagWriters: functions of internal/crypto that set isInitiator (by
@@ -226,4 +227,7 @@ func genC01(g *gen) {
 	g.line("Definition gen_c01_recv_writes_after_open_locked : N := %s.", itoa(afterLocked))
 	g.line("Definition gen_c01_recv_writes_after_open_unlocked : N := %s.", itoa(afterUnlocked))
 	g.line("Definition gen_c01_recv_counter_writers : list string := %s%%string.", coqStrList(writersOf("recvNonce")))
+	genAEADFacts(g, "gen_c01_aead")
+	genKeyWritesNamed(g, "gen_c01_key_writes")
+	genPassThroughPairs(g)
 }
